@@ -70,7 +70,8 @@ LEVEL_TEXT = ('Coq theorems over an executable model of OLA\'s text conversions,
               'DmxBuffer::SetFromString never rejects - its result is characterised exactly for every text '
               '(c20_dmx_text_exact) and equals the denoted slots only when every item is in 0..255 '
               '(c20_dmx_text_partial / c20_dmx_text_refuted, known finding C20-dmx-atoi-truncation). Not proved: '
-              '"accepts => denotes" for the IPv6 and uuid_parse grammars (libc/libuuid models, correspondence only). '
+              'nothing of the libc/libuuid grammars: inet_pton(AF_INET), inet_pton(AF_INET6) (full, "::" and embedded-IPv4 forms, '
+              'c20_ipv6_exact) and uuid_parse (c20_cid_exact) are characterised exactly on their validated models. '
               'The model is tied to the C++ by a differential correspondence check on an ASan/UBSan build of the '
               'working tree; constants used by the model are regenerated from the headers and pinned (c20_consts).')
 LEVEL_NOTE = ('Trusted: Coq kernel, extraction (ExtrOcamlBasic), OCaml/C++ glue, the generator\'s coverage of the '
